@@ -154,7 +154,7 @@ def gen_client_cases(ctx, thorough):
     cases = []
     # all 256 exception codes: quick = one op per code (rotating), thorough = every op
     for code in range(256):
-        for op in (ops if thorough else [ops[(code + ctx.seed) % 8]]):
+        for op in (ops if thorough else [ops[(code + ctx.seed + k) % 8] for k in range(3)]):
             cases.append(f'req {op} {code} {1 if op not in ("wmc", "wmr") else 2}')
     for op in ops:
         for start in (1000, 1001, 1002, 1003, 1004):
